@@ -458,7 +458,9 @@ impl<R: Clone + 'static> ThreadLocalCache<R> {
                             .with(|c| find_min_frequency_key(&c.borrow(), order));
 
                         if let Some(evict_key) = min_freq_key {
-                            self.remove_key(&evict_key);
+                            self.cache.with(|c| {
+                                remove_key_from_cache_local(&mut c.borrow_mut(), order, &evict_key)
+                            });
                         }
                     }
                     EvictionPolicy::ARC => {
@@ -467,7 +469,9 @@ impl<R: Clone + 'static> ThreadLocalCache<R> {
                             .with(|c| find_arc_eviction_key(&c.borrow(), order.iter().enumerate()));
 
                         if let Some(key) = evict_key {
-                            self.remove_key(&key);
+                            self.cache.with(|c| {
+                                remove_key_from_cache_local(&mut c.borrow_mut(), order, &key)
+                            });
                         }
                     }
                     EvictionPolicy::TLRU => {
@@ -481,7 +485,9 @@ impl<R: Clone + 'static> ThreadLocalCache<R> {
                         });
 
                         if let Some(key) = evict_key {
-                            self.remove_key(&key);
+                            self.cache.with(|c| {
+                                remove_key_from_cache_local(&mut c.borrow_mut(), order, &key)
+                            });
                         }
                     }
                     EvictionPolicy::Random => {
@@ -582,7 +588,13 @@ impl<R: Clone + 'static + crate::MemoryEstimator> ThreadLocalCache<R> {
                                 .cache
                                 .with(|c| find_min_frequency_key(&c.borrow(), &order));
                             if let Some(evict_key) = min_freq_key {
-                                self.remove_key(&evict_key);
+                                self.cache.with(|c| {
+                                    remove_key_from_cache_local(
+                                        &mut c.borrow_mut(),
+                                        &mut order,
+                                        &evict_key,
+                                    )
+                                });
                                 true
                             } else {
                                 false
@@ -593,7 +605,13 @@ impl<R: Clone + 'static + crate::MemoryEstimator> ThreadLocalCache<R> {
                                 find_arc_eviction_key(&c.borrow(), order.iter().enumerate())
                             });
                             if let Some(key) = evict_key {
-                                self.remove_key(&key);
+                                self.cache.with(|c| {
+                                    remove_key_from_cache_local(
+                                        &mut c.borrow_mut(),
+                                        &mut order,
+                                        &key,
+                                    )
+                                });
                                 true
                             } else {
                                 false
@@ -609,7 +627,13 @@ impl<R: Clone + 'static + crate::MemoryEstimator> ThreadLocalCache<R> {
                                 )
                             });
                             if let Some(key) = evict_key {
-                                self.remove_key(&key);
+                                self.cache.with(|c| {
+                                    remove_key_from_cache_local(
+                                        &mut c.borrow_mut(),
+                                        &mut order,
+                                        &key,
+                                    )
+                                });
                                 true
                             } else {
                                 false
